@@ -885,6 +885,26 @@ def fam_cards(rng, quick):
            {"op": "put", "uri": "mv2://long", "pay": 12, "cls": "raw", "text": long_text, "ts": 5, "triplets": True},
            {"op": "cards"}, {"op": "commit"}, {"op": "cards"}, {"op": "close"}, {"op": "open"}, {"op": "cards"}, {"op": "close"}]
     out.append(ops)
+    # a chunked document (parent + chunk records in the log) FOLLOWED by extracting puts in the same uncommitted window: the
+    # frame ids of the later documents must count every record of the long one
+    ops = [{"op": "create"}, {"op": "put", "uri": "mv2://x0", "pay": 1, "cls": "text", "size": 60, "ts": 1},
+           {"op": "put", "uri": "mv2://long", "pay": 12, "cls": "raw", "text": long_text, "ts": 2, "triplets": True},
+           {"op": "put", "uri": "mv2://t0", "pay": 10, "cls": "raw", "text": texts[0], "ts": 3, "triplets": True, "instant": True, "enable_embedding": True},
+           {"op": "cards"},
+           {"op": "put", "uri": "mv2://t1", "pay": 11, "cls": "raw", "text": texts[1], "ts": 4, "triplets": True, "instant": True},
+           {"op": "cards"}, {"op": "commit"}, {"op": "cards"}, {"op": "close"}, {"op": "open"}, {"op": "cards"}, {"op": "close"}]
+    out.append(ops)
+    # extracting puts after a skip-index commit and before the next full commit
+    ops = [{"op": "create"}, {"op": "put", "uri": "mv2://x0", "pay": 1, "cls": "text", "size": 60, "ts": 1},
+           {"op": "put", "uri": "mv2://x1", "pay": 2, "cls": "text", "size": 60, "ts": 2},
+           {"op": "put", "uri": "mv2://x2", "pay": 3, "cls": "text", "size": 60, "ts": 3}, {"op": "commit_skip"},
+           {"op": "put", "uri": "mv2://t0", "pay": 10, "cls": "raw", "text": texts[0], "ts": 4, "triplets": True, "instant": True, "enable_embedding": True},
+           {"op": "cards"},
+           {"op": "put", "uri": "mv2://t1", "pay": 11, "cls": "raw", "text": texts[1], "ts": 5, "triplets": True, "instant": True},
+           {"op": "cards"}, {"op": "commit_skip"}, {"op": "cards"},
+           {"op": "put", "uri": "mv2://t2", "pay": 13, "cls": "raw", "text": texts[2], "ts": 6, "triplets": True},
+           {"op": "cards"}, {"op": "finalize"}, {"op": "commit"}, {"op": "cards"}, {"op": "close"}, {"op": "open"}, {"op": "cards"}, {"op": "close"}]
+    out.append(ops)
     return out
 
 
